@@ -1520,6 +1520,13 @@ class Fn:
 def print_only(s) -> bool:
     """a statement whose only effect is debug output: `print(...)`, or an `if` guarding nothing but such statements"""
     if isinstance(s, ast.Expr) and isinstance(s.value, ast.Call) and isinstance(s.value.func, ast.Name) and s.value.func.id == "print":
+        # only if printing cannot change anything: no calls (other than a few pure builtins / strftime-like formatting), no walrus
+        for x in ast.walk(s.value):
+            if isinstance(x, ast.NamedExpr):
+                return False
+            if isinstance(x, ast.Call) and x is not s.value:
+                if not (isinstance(x.func, ast.Name) and x.func.id in ("len", "str", "abs", "round", "repr", "float", "int", "min", "max", "sum")):
+                    return False
         return True
     if isinstance(s, ast.If) and not s.orelse and all(print_only(x) for x in s.body):
         return True
@@ -1614,6 +1621,85 @@ def generate(repo: Path) -> tuple[str, dict]:
         if qual.endswith(".__init__"):
             key = qual.split(".")[0]
         table[key] = (sp, node)
+    # ---- soundness guards: the translation reads function bodies; anything that changes what a *name* or an *attribute* means
+    # without changing the body must be refused, not ignored
+    guard_fail = {}
+    for key, (sp, node) in table.items():
+        fname, qual = sp["src"]
+        tree = trees[fname]
+        why = None
+        if node.decorator_list:
+            why = "decorated (" + ", ".join(ast.unparse(d) for d in node.decorator_list) + "): a decorator can replace the function"
+        parts = qual.split(".")
+        scope = tree.body
+        cls = None
+        if len(parts) > 1:
+            cls = next((n for n in tree.body if isinstance(n, ast.ClassDef) and n.name == parts[0]), None)
+            scope = cls.body if cls else []
+        last = parts[-1]
+        defs = [n for n in scope if isinstance(n, (ast.FunctionDef, ast.AsyncFunctionDef, ast.ClassDef)) and n.name == last]
+        if len(defs) != 1:
+            why = why or f"{len(defs)} definitions of {last} in its scope"
+        for n in scope:
+            tg = []
+            if isinstance(n, ast.Assign):
+                tg = n.targets
+            elif isinstance(n, (ast.AugAssign, ast.AnnAssign)):
+                tg = [n.target]
+            for t in tg:
+                if any(isinstance(x, ast.Name) and x.id == last for x in ast.walk(t)):
+                    why = why or f"the name {last} is re-bound in its scope (line {n.lineno})"
+        if cls is not None:
+            # the attributes the translation treats as plain instance state must not be class-level names (shared objects, properties, descriptors)
+            state = {p.split(".")[0] for p in list(sp.get("selfr", {})) + list(sp.get("selfw", {}))} | (set(SELF_FIELDS) if sp.get("selfrec") else set())
+            for n in cls.body:
+                names = []
+                if isinstance(n, (ast.FunctionDef, ast.AsyncFunctionDef)):
+                    names = [n.name]
+                elif isinstance(n, ast.Assign):
+                    names = [x.id for t in n.targets for x in ast.walk(t) if isinstance(x, ast.Name)]
+                elif isinstance(n, ast.AnnAssign) and isinstance(n.target, ast.Name) and n.value is not None and cls.name == "OptimizationAbstract":
+                    names = [n.target.id]
+                for nm in names:
+                    if nm in state:
+                        why = why or f"{cls.name}.{nm} is a class-level name (line {n.lineno}): instances would share or intercept it"
+                    if nm in ("__getattr__", "__getattribute__", "__setattr__", "__slots__"):
+                        why = why or f"{cls.name} defines {nm}"
+        if why:
+            guard_fail[sp["name"]] = f"{fname}:{qual} {why}"
+    # a translated callee used from another file must be the one imported from its defining module, and nothing else may bind its name there
+    owners = {}
+    for key, (sp, node) in table.items():
+        if "." not in sp["src"][1]:
+            owners[sp["src"][1]] = sp["src"][0]
+    for fname, tree in trees.items():
+        for name, home in owners.items():
+            if home == fname:
+                continue
+            used = any(isinstance(x, ast.Name) and x.id == name for x in ast.walk(tree))
+            if not used:
+                continue
+            binds = []
+            for n in ast.walk(tree):
+                if isinstance(n, ast.ImportFrom):
+                    for a in n.names:
+                        if (a.asname or a.name) == name:
+                            binds.append(("import", n.module, n.level, a.name))
+                elif isinstance(n, ast.Import):
+                    for a in n.names:
+                        if (a.asname or a.name) == name:
+                            binds.append(("import-module", a.name, 0, a.name))
+                elif isinstance(n, (ast.FunctionDef, ast.ClassDef)) and n.name == name:
+                    binds.append(("def", None, None, None))
+                elif isinstance(n, ast.Assign) and any(isinstance(x, ast.Name) and x.id == name and isinstance(x.ctx, ast.Store) for t in n.targets for x in ast.walk(t)):
+                    binds.append(("assign", None, None, None))
+                elif isinstance(n, ast.arg) and n.arg == name:
+                    binds.append(("parameter", None, None, None))
+            ok = binds == [("import", home[:-3], 1, name)]
+            if not ok:
+                for key, (sp, node) in table.items():
+                    if sp["src"][0] == fname and any(isinstance(x, ast.Name) and x.id == name for x in ast.walk(node)):
+                        guard_fail.setdefault(sp["name"], f"{fname}: the name {name} is not simply `from .{home[:-3]} import {name}` here ({binds})")
     eff_keys, calls = infer_effects(table)
     effectful = {table[k][0]["name"] for k in eff_keys}
     # topological order (callees first)
@@ -1635,6 +1721,11 @@ def generate(repo: Path) -> tuple[str, dict]:
     for k in order:
         sp, node = table[k]
         # a function whose callee could not be translated cannot be translated either
+        if sp["name"] in guard_fail:
+            failed.add(sp["name"])
+            report["untranslatable"][sp["name"]] = guard_fail[sp["name"]]
+            out.append(f"-- UNTRANSLATABLE {sp['name']}: {guard_fail[sp['name']]}\n")
+            continue
         bad = [c for c in calls.get(k, ()) if table[c][0]["name"] in failed]
         if bad:
             failed.add(sp["name"])
